@@ -250,4 +250,11 @@ def isInterleaving (qs : List (List Ev)) : List Ev → Bool
 def itemRun {V : Type} (micro : Nat → Nat → V × V → V × V) (plen : Nat → Nat) (i : Nat) (p : V × V) : V × V :=
   (List.range (plen i)).foldl (fun p pc => micro i pc p) p
 
+/-! ### Scratch queries of the word-level multi-threaded operations -/
+
+/-- `execute_bdd_circuit_2w_to_1w_multi_thread_tmp_bytes(threads, …)` (`bdd_2w_to_1w.rs`; the 1-word form is the same):
+`glwe_slot_bytes + max(threads * bdd_per_thread, pack_bytes)` with `glwe_slot_bytes = T::BITS * bytes_of(GLWE)` -/
+def mtTmpBytes (slotBytes perThread packBytes threads : Nat) : Nat :=
+  slotBytes + max (threads * perThread) packBytes
+
 end Threads
